@@ -164,6 +164,10 @@ Section Model.
   Definition hop_ok (m : mask) (H W : nat) (o : hop) : bool :=
     match o with HNew f' | HBuild f' _ => wfb m H W f' | _ => true end.
   (* what is read (slim, native) from the object after construction and after every operation *)
+  (* apply_mask (phase 3): `Array2D(values=self.native, mask=m2)` / `VectorYX2D.from_mask(values=self.native, mask=m2)`:
+     the native reading of the object under its own mask m is handed, as a native input, to a slim-storing
+     constructor on the second mask m2 *)
+  Definition apply_mask (m m2 : mask) (f : form) : form := convert m2 (Native (obs_native m f)) false.
   Fixpoint run_hist (m : mask) (f : form) (ops : list hop) : list (list A * grid) :=
     (obs_slim m f, obs_native m f) :: match ops with [] => [] | o :: t => run_hist m (step m f o) t end.
 
@@ -215,7 +219,7 @@ Definition zg_eqb := list_eqb (list_eqb Z.eqb).
    ZSet carries the slim index k (used if the object is stored slim) and the native index (i, j) *)
 Inductive zop := ZAff (a b : Z) | ZNew (native_input : bool) (n : zgrid) (s : list Z)
                | ZBuild (native_input : bool) (n : zgrid) (s : list Z) (store_native : bool)
-               | ZSet (k i j : nat) (v : Z) | ZNative | ZSlim.
+               | ZSet (k i j : nat) (v : Z) | ZNative | ZSlim | ZAbs.
 
 Inductive case :=
   (* util level *)
@@ -242,7 +246,11 @@ Inductive case :=
      derive_indexes.native_for_slim, .unmasked_slim, .masked_slim, Array2D(vals_native, mask).slim and
      Array2D([1000, 1001, ...], mask).native *)
 | KMaskHist (m : mask) (vals_native : zgrid) (ops : list mop)
-            (outs : list (list (nat * nat) * list nat * list nat * list Z * zgrid)).
+            (outs : list (list (nat * nat) * list nat * list nat * list Z * zgrid))
+  (* phase 3: an object built on mask m (either input form, either storage mode), then obj.apply_mask(m2);
+     (slim, native) read from the result *)
+| KApply (m m2 : mask) (native_input store_native : bool) (vals_native : zgrid) (vals_slim : list Z)
+         (out_slim : list Z) (out_native : zgrid).
 
 Definition inp (native_input : bool) (n : zgrid) (s : list Z) : form :=
   if native_input then Native n else Slim s.
@@ -255,6 +263,7 @@ Definition hop_of (o : zop) : hop :=
   | ZSet k i j v => HSet k i j v
   | ZNative => HNative
   | ZSlim => HSlim
+  | ZAbs => HMap Z.abs
   end.
 Definition inp1 (native_input : bool) (n s : list Z) : form1 := if native_input then Native1 n else Slim1 s.
 Definition hop1_of (o : zop) : hop1 :=
@@ -265,6 +274,7 @@ Definition hop1_of (o : zop) : hop1 :=
   | ZSet k i j v => HSet1 k j v
   | ZNative => HNative1
   | ZSlim => HSlim1
+  | ZAbs => HMap1 Z.abs
   end.
 (* the masks a Mask2D object holds along a history *)
 Fixpoint mstates (m : mask) (ops : list mop) : list mask :=
@@ -305,6 +315,9 @@ Definition agree (k : case) : bool :=
       list_eqb (prod_eqb (list_eqb Z.eqb) (list_eqb Z.eqb))
                (run_hist_1d 0%Z r (convert_1d 0%Z r (inp1 ni n s) sn) (map hop1_of ops)) outs
   | KMaskHist m n ops outs => list_eqb mobs_eqb (run_mhist n m ops) outs
+  | KApply m m2 ni sn n s os on =>
+      let f2 := apply_mask 0%Z m m2 (convert 0%Z m (inp ni n s) sn) in
+      list_eqb Z.eqb (obs_slim 0%Z m2 f2) os && zg_eqb (obs_native 0%Z m2 f2) on
   end.
 
 (* specification verdict on the implementation's output: written with the spec definitions only *)
@@ -334,6 +347,7 @@ Definition sstep (m : mask) (st : zgrid * bool) (o : zop) : zgrid * bool :=
   | ZSet k i j v => (spec_set (length m) (width m) g (if isnat then (i, j) else nth k (unmasked_spec m) (0, 0)) v, isnat)
   | ZNative => (g, true)
   | ZSlim => (g, false)
+  | ZAbs => (map (map Z.abs) g, isnat)
   end.
 Definition sobs (m : mask) (g : zgrid) : list Z * zgrid := (spec_slim m g, spec_zero_masked m g).
 Fixpoint spec_hist (m : mask) (st : zgrid * bool) (ops : list zop) : list (list Z * zgrid) :=
@@ -385,6 +399,10 @@ Definition spec_ok (k : case) : bool :=
       list_eqb (prod_eqb (list_eqb Z.eqb) zg_eqb) (map (fun o => (fst o, [snd o])) outs)
                (spec_hist [r] (sinit [r] ni sn [n] s) (map zop_row ops))
   | KMaskHist m n ops outs => list_eqb mobs_eqb outs (spec_mhist n m ops)
+  | KApply m m2 ni sn n s os on =>
+      (* a pixel keeps its value iff it is unmasked in BOTH masks *)
+      let g := spec_zero_masked m (if ni then n else spec_native m s) in
+      list_eqb Z.eqb os (spec_slim m2 g) && zg_eqb on (spec_zero_masked m2 g)
   end.
 
 Definition check (k : case) : nat := verdict (agree k) (spec_ok k).
